@@ -12,6 +12,7 @@
 package c10
 
 import (
+	"fmt"
 	"strings"
 
 	"verifharness/lib"
@@ -42,6 +43,14 @@ func history(c *lib.Ctx, sc *lib.Script, fails *[]lib.OracleFail, rng *lib.RNG, 
 			}
 		}
 		c.Hit("history:partial-index-transition")
+		return
+	}
+	// SIZE FAMILY (storegen/large.go): one history in ten (one in five at thorough) runs on a store of 64–150
+	// documents – batches of 20–70, finds over large results with sort/skip/limit, `$or` lists of 17–40 alternatives,
+	// updates and deletes matching dozens of documents, upserts whose "no match" decision needs the whole walk; a third
+	// of them with compound indexes, some built over the loaded data.
+	if rng.Chance(1, c.Scale(10, 5)) {
+		large(c, k, g, rng)
 		return
 	}
 	indexed := rng.Chance(1, 5)
@@ -97,6 +106,61 @@ func history(c *lib.Ctx, sc *lib.Script, fails *[]lib.OracleFail, rng *lib.RNG, 
 			k.Readback()
 		}
 	}
+}
+
+func large(c *lib.Ctx, k *sg.Case, g *sg.Gen, rng *lib.RNG) {
+	l := g.NewLarge(rng.Chance(1, 4))
+	c.Hit("history:large-store")
+	var idxs []sg.Op
+	if rng.Chance(1, 3) {
+		idxs = l.Indexes()
+		c.Hit("history:large-store-with-indexes")
+	}
+	before := rng.Bool()
+	if before {
+		for _, ix := range idxs {
+			k.Do(ix)
+		}
+	}
+	l.LoadInto(k)
+	stored := k.Readback()
+	c.Hit(fmt.Sprintf("large:documents-after-load:%d0s", len(stored.Docs)/10))
+	if !before {
+		for _, ix := range idxs { // built over the loaded documents (a unique one may be refused: violating pair)
+			k.Do(ix)
+		}
+	}
+	for _, o := range l.Ops(rng.Range(8, 16)) {
+		if len(*k.Fails) != 0 {
+			return
+		}
+		res := k.Do(o)
+		switch {
+		case res.Kind == "docs":
+			c.Hit(fmt.Sprintf("large:find-result:%s", bucket(len(res.Docs))))
+		case res.Kind == "n" && o.Kind == "upd":
+			c.Hit(fmt.Sprintf("large:updated:%s", bucket(res.N)))
+		case res.Kind == "n" && o.Kind == "del":
+			c.Hit(fmt.Sprintf("large:deleted:%s", bucket(res.N)))
+		}
+		if o.Kind != "find" && rng.Chance(2, 3) {
+			k.Readback()
+		}
+	}
+}
+
+func bucket(n int) string {
+	switch {
+	case n == 0:
+		return "0"
+	case n < 30:
+		return "1-29"
+	case n < 64:
+		return "30-63"
+	case n < 100:
+		return "64-99"
+	}
+	return "100+"
 }
 
 func corpus(c *lib.Ctx, sc *lib.Script, fails *[]lib.OracleFail, path string) {
